@@ -395,6 +395,11 @@ def check_witness(w):
         for name, msg in history_cases(only=w["history"]):
             return Violation(f"C14|grad-shape|{name}", f"{name}: {msg}", {"kind": "history", "name": name})
         return None
+    if "layer" in w:  # by name: the position of a case in the list is not part of the finding
+        ci = [i for i, (nm, _) in enumerate(layer_cases()) if nm == w["layer"]]
+        if not ci:
+            return None
+        w = dict(w, args=[w["args"][0], ci[0]] + list(w["args"][2:]))
     r = _CACHE.get(tuple(w["args"])) or layer_case(tuple(w["args"]))
     for f in r["fails"]:
         cls = "shape" if "shape" in f else ("dtype" if "dtype" in f else ("type" if "ndarray" in f else "raised"))
